@@ -3,6 +3,7 @@
   Property theorems only; the lemmas are in Proofs/FieldIndex.lean and Proofs/ObjIndex.lean.
 -/
 import Proofs.SearchColl
+import Proofs.Expects
 namespace Sod.Props
 open Sod
 
@@ -131,5 +132,19 @@ theorem C02_search_delete {c : Coll} {l : Loaded} (h : Inv' c l) (s : Search) (h
       c'.view = fun w => if w ∈ s.uuids l then none else c.view w :=
   let ⟨c', l', a, b, d, _⟩ := searchDelete_spec h s he
   ⟨c', l', a, b, d⟩
+
+/-- `Expects(n)` / `ExpectsZeroOrN(n)` keep the members of a search, keep an earlier failure, and
+    turn the search into a failed one (class: unexpected number of results) exactly when it holds
+    another number of results -/
+theorem C02_expects_members (s : Search) (z : Bool) (n : Nat) : (s.expects z n).fields = s.fields :=
+  expects_fields s z n
+
+theorem C02_expects_iff (s : Search) (z : Bool) (n : Nat) (h : s.err = none) :
+    (s.expects z n).err = none ↔ (s.fields.length = n ∨ (z = true ∧ s.fields.length = 0)) :=
+  expects_ok_iff s z n h
+
+theorem C02_expects_class (s : Search) (z : Bool) (n : Nat) (h : s.err = none)
+    (hn : ¬ (s.fields.length = n ∨ (z = true ∧ s.fields.length = 0))) :
+    (s.expects z n).err = some Err.unexpectedN := expects_err_class s z n h hn
 
 end Sod.Props
